@@ -17,6 +17,7 @@ import (
 type c11Conn struct {
 	Via       string `json:"via"` // Connect | Resume
 	SrvSM     bool   `json:"server_advertises_sm"`
+	BindFails bool   `json:"server_refuses_the_bind,omitempty"`
 	Enable    int    `json:"enable_reply"` // EnableOK / EnableNoResume / EnableFailed ...
 	Resume    int    `json:"resume_reply"`
 	SMId      string `json:"sm_id"`
@@ -60,6 +61,9 @@ func runC11(e *Engine, g G, o RunOpt) RunInfo {
 			c.Via = []string{"Resume", "Connect"}[g.Weighted("via", 3, 1)]
 		}
 		c.SrvSM = g.Pct("srvsm", 85)
+		// a server without stream management that also refuses the bind: the attempt fails, and since no
+		// <resume/> was ever sent the resumable session is untouched (identity included)
+		c.BindFails = !c.SrvSM && i > 0 && g.Pct("bind-fails", 50)
 		c.Enable = []int{EnableOK, EnableOK, EnableOK, EnableNoResume, EnableFailed}[g.N("enable", 5)]
 		c.Resume = g.Weighted("resume", 5, 2, 4, 1, 1, 1, 1, 2)
 		c.Inbound = g.Range("inbound", 0, 5)
@@ -85,10 +89,14 @@ func runC11(e *Engine, g G, o RunOpt) RunInfo {
 		s.Enable = c.Enable
 		s.Resume = c.Resume
 		s.SMId = c.SMId
+		if c.BindFails {
+			s.Bind = BindError
+		}
 		scripts = append(scripts, s)
 	}
 
 	// model of the statement
+	modelJID := ""     // the JID bound on the session that id belongs to
 	modelID := ""      // id from the most recent <enabled/>, not yet discarded
 	modelCount := 0    // stanzas completely received on that session
 	countKnown := true // false once stanzas were received on a session that is not the stream-managed one
@@ -198,6 +206,9 @@ func runC11(e *Engine, g G, o RunOpt) RunInfo {
 						if s.BindJid != jidBefore {
 							e.Violate("C11", "identity-changed-by-resume", "connection #%d: BindJid %q before, %q after the resumption", ci, jidBefore, s.BindJid)
 						}
+						if modelJID != "" && s.BindJid != modelJID {
+							e.Violate("C11", "identity-changed-by-resume", "connection #%d: the session was bound as %q when stream management was enabled; after its resumption BindJid is %q", ci, modelJID, s.BindJid)
+						}
 						if s.SMState.Inbound != inboundBefore {
 							e.Violate("C11", "count-changed-by-resume", "connection #%d: inbound count %d before, %d after the resumption", ci, inboundBefore, s.SMState.Inbound)
 						}
@@ -237,12 +248,20 @@ func runC11(e *Engine, g G, o RunOpt) RunInfo {
 				e.Violate("C11", "traffic-without-session", "connection #%d: %d stanzas were sent before any bind or confirmed resumption", ci, stanzasWithoutSession)
 			}
 			first = false
+			if c.BindFails && err != nil && modelID != "" {
+				e.Probe("c11.bind_refused_without_sm")
+			}
 			// a new <enabled/> starts a new stream-managed session
 			for _, s := range conn.Sent {
 				if strings.Contains(s.Data, "<enabled ") {
 					modelID = c.SMId
 					modelCount = 0
 					countKnown = true
+					modelJID = ""
+					if err == nil && w.Client.Session != nil {
+						modelJID = w.Client.Session.BindJid // (of a fresh bind: what the server's result said, C03)
+					}
+
 				}
 			}
 			// The server's own count of the client's stanzas: a new session starts at zero; a resumed one goes
